@@ -74,7 +74,7 @@ def dialViolations (d : DSt) (banned : List Nat) (itoks : List String) : List St
     (if isLoopback a.1 ∧ a.2 = d.port then [s!"C18 dial-own-address ip={a.1}"] else []) ++
     (if d.ext = some a.1 then [s!"C18 dial-own-external-ip ip={a.1}"] else []) ++
     (if d.implConn.contains a.1 then [s!"C18 dial-connected-ip ip={a.1}"] else []) ++
-    (if banned.contains a.1 then [s!"C18 dial-banned-ip ip={a.1}"] else []) ++
+    (if banned.contains a.1 then [s!"C18 dial-banned-ip ip={a.1}", s!"C01 corrupt-sender-dialled-again ip={a.1}"] else []) ++
     (if d.cfg.blOutgoing ∧ implBlocked a.1 then [s!"C18 dial-blocked-ip ip={a.1}"] else [])
   let ips := dial.map (·.1)
   perAddr ++
@@ -131,7 +131,7 @@ def step (d : DSt) (op implObs : String) : DSt × String × List String × List 
     let implBlocked := d.hasBl && Rain.Blocklist.inRules d.implRules ip
     let viol := if res = "accept" then
         (if d.implConn.contains ip then [s!"C18 accept-connected-ip ip={ip}"] else []) ++
-        (if d.s.banned.contains ip then [s!"C18 accept-banned-ip ip={ip}"] else []) ++
+        (if d.s.banned.contains ip then [s!"C18 accept-banned-ip ip={ip}", s!"C01 corrupt-sender-accepted-again ip={ip}"] else []) ++
         (if d.cfg.blIncoming ∧ implBlocked then [s!"C18 accept-blocked-ip ip={ip}"] else []) ++
         (if kvNat itoks "in" > d.cfg.maxPeerAccept then ["C18 accept-over-limit"] else [])
       else []
